@@ -104,7 +104,9 @@ CLAIMED = {
         text=("Representation invariant wf(tensor) (blocks unique and sorted, selection rule under the group law, per-leg dimension "
               "consistency, slices accumulate, storage size, fusion history vs signature, permutation/meta-fusion bookkeeping) as a "
               "contract on the REAL code of conj/conj_blocks/flip_signature/flip_charges/transpose/consume_transpose/moveaxis/add_leg/"
-              "remove_leg/diag/drop_leg_history/copy/clone, tensordot under all three policies (through _common_inds, _meta_merge_to_matrix, "
+              "remove_leg/diag/drop_leg_history/copy/clone, block creation (set_block: refused without touching the tensor when the selection rule "
+              "fails, otherwise old blocks kept + new one at its sorted position, replacement of an existing block, data edited in bounds; _fill_tensor "
+              "behind rand/zeros/ones/eye: exactly the allowed non-empty sector combinations, sorted), tensordot under all three policies (through _common_inds, _meta_merge_to_matrix, "
               "_meta_fuse_hard, _meta_tensordot_f2m/_fc/_nf, _meta_unmerge_matrix), add/sub (_pre_addition, _meta_addition), vdot, trace, "
               "broadcast: requires wf(operands) ensures wf(result), result charge as algebra dictates, result blocks exactly those the "
               "operation's definition gives, and every backend kernel precondition (shape-valid, in-bounds, output fully written). "
